@@ -290,7 +290,7 @@ pub fn run_chunk(prop: &str, batch_seed: u64, from: u64, to: u64, fixed_family: 
         for v in crate::oracle::check_all(&d) {
             // a deadlock that matches no recorded finding stops the store for good: whatever the
             // property under check promises for the actions in flight fails with it
-            let foreign_deadlock = v.prop == "C13" && v.clause == "deadlock" && p.id != "C13";
+            let foreign_deadlock = v.prop == "C13" && (v.clause == "deadlock" || v.clause == "livelock") && p.id != "C13";
             if foreign_deadlock && v.known.is_some() {
                 continue;
             }
